@@ -3753,6 +3753,10 @@ class PyCdlib:
         dotdot.new_dotdot(vd, parent, vd.sequence_number(), rock_ridge,
                           vd.logical_block_size(), relocated, xa, file_mode,
                           time.time())
+        if parent.parent is not None:
+            # The dotdot entry describes the directory above this one, which
+            # may already be longer than a single block.
+            dotdot.data_length = parent.parent.data_length
         self._add_child_to_dr(dotdot)
         return dotdot
 
